@@ -16,6 +16,7 @@ import (
 //	long_list/<n>  one item whose attribute "big" (and, for logs, a second
 //	               record whose body) is a list of n small integers
 //	long_map/<n>   the same with a map of n entries
+//	bigvalue/<n>   the same with ONE string of n bytes (a single Arrow buffer of that size)
 //	haul/<n>, haulwide/<n>   a long-haul batch of n items (haulInput)
 func synthInput(signal, synth string) (Input, error) {
 	kind, arg, _ := strings.Cut(synth, "/")
@@ -32,6 +33,8 @@ func synthInput(signal, synth string) (Input, error) {
 	}
 	fill := func(v pcommon.Value) {
 		switch kind {
+		case "bigvalue":
+			v.SetStr(strings.Repeat("x", n))
 		case "long_list":
 			sl := v.SetEmptySlice()
 			sl.EnsureCapacity(n)
@@ -46,7 +49,7 @@ func synthInput(signal, synth string) (Input, error) {
 			_ = v.SetEmptyMap().FromRaw(raw)
 		}
 	}
-	if kind != "long_list" && kind != "long_map" {
+	if kind != "long_list" && kind != "long_map" && kind != "bigvalue" {
 		return Input{}, fmt.Errorf("unknown synthetic batch %q", synth)
 	}
 	in := Input{Signal: signal}
